@@ -504,7 +504,7 @@ pub fn run_check(mode: Mode, replay: Option<Value>) -> i32 {
     let mut rep = Report::new(id, "model_checking");
     let only = replay.as_ref().and_then(|c| c["key"].as_str().map(|s| s.to_string()));
     let thorough = is_thorough();
-    let tols: Vec<f64> = vec![1e-4, 1e-8];
+    let tols: Vec<f64> = if thorough { vec![1e-4, 1e-8, 1e-2, 1e-6, 1e-10] } else { vec![1e-4, 1e-8] };
     let mut ctxs = vec![];
     for (mi, m) in M6.iter().enumerate() {
         for backward in [false, true] {
